@@ -261,7 +261,7 @@ func exprKind(name string, src func(n int) string, elems func(f *dst.File) []dst
 
 const spQualHead = "package p\n\nimport \"example.com/lib\"\n\n"
 
-var spLabelRe = regexp.MustCompile(`\be\d+\b|[st]\d+\.\d+`)
+var spLabelRe = regexp.MustCompile(`\be\d+\b|u?[st]\d+\.\d+`)
 
 func spDecText(kind string, who string, k int) string {
 	switch kind {
@@ -269,6 +269,8 @@ func spDecText(kind string, who string, k int) string {
 		return fmt.Sprintf("// %s%d", who, k)
 	case "B":
 		return fmt.Sprintf("/*%s%d*/", who, k)
+	case "M": // a block comment over two lines; the second line carries the label u<who><k>
+		return fmt.Sprintf("/*%s%d\n\tu%s%d*/", who, k, who, k)
 	}
 	return "\n"
 }
@@ -353,7 +355,7 @@ func spPrint(k spKind, es []spElem) (lines [][]string, text string, errMsg strin
 
 var (
 	spStart = [][]string{{}, {"L"}, {"N"}}
-	spEnd   = [][]string{{}, {"L"}, {"N"}, {"N", "N"}, {"B"}}
+	spEnd   = [][]string{{}, {"L"}, {"N"}, {"N", "N"}, {"B"}, {"M"}}
 )
 
 func spAllElems(decs bool) []spElem {
@@ -366,6 +368,11 @@ func spAllElems(decs bool) []spElem {
 			}
 			for _, s := range spStart {
 				for _, e := range spEnd {
+					if len(e) == 1 && e[0] == "M" && a == 0 {
+						// what follows a two-line comment without a line break of its own is laid out by
+						// go/printer (it breaks the line in front of a statement or a closing brace itself)
+						continue
+					}
 					out = append(out, spElem{b, a, s, e})
 				}
 			}
@@ -377,7 +384,7 @@ func spAllElems(decs bool) []spElem {
 const spacingMC = `---- MODULE SpacingMC ----
 EXTENDS Spacing
 MCStart == {<<>>, <<"L">>, <<"N">>}
-MCEnd == {<<>>, <<"L">>, <<"N">>, <<"N", "N">>, <<"B">>}
+MCEnd == {<<>>, <<"L">>, <<"N">>, <<"N", "N">>, <<"B">>, <<"M">>}
 ====
 `
 
@@ -422,7 +429,7 @@ func checkC05(c *Ctx) {
 		return
 	}
 	c.TLC(mc)
-	c.Set("mc_bounds", fmt.Sprintf("all lists of 1..%d elements x Before,After in {None,NewLine,EmptyLine} x Start in {[],[//],[\\n]} x End in {[],[//],[\\n],[\\n \\n],[/**/]}", n))
+	c.Set("mc_bounds", fmt.Sprintf("all lists of 1..%d elements x Before,After in {None,NewLine,EmptyLine} x Start in {[],[//],[\\n]} x End in {[],[//],[\\n],[\\n \\n],[/**/],[/*two lines*/]}", n))
 	c.Set("exhaustive", true)
 	bad, err := RunTLC(TLCRun{Module: "SpacingMC", Cfg: spacingCfg(2, true), Files: map[string][]byte{"SpacingMC.tla": []byte(spacingMC)}, Workers: 4, Timeout: 5 * time.Minute})
 	if err != nil || bad.Violated == "" {
